@@ -19,8 +19,14 @@ theorem bitLen_or_one_le (x : Nat) (hx : x < 18446744073709551616) : bitLen (x |
     into a byte count is evaluated for each of them (robust against rewrites of the formula) -/
 theorem src_Sov (x : Nat) (hx : x < 18446744073709551616) : Xf.runtime_Sov x = .ok (sov x : Int) := by
   have hb := bitLen_or_one_le x hx
+  have hb1 : 1 ≤ bitLen (x ||| 1) := by
+    have hne : x ||| 1 ≠ 0 := by
+      intro h0
+      have : (x ||| 1) % 2 = 1 := Nat.or_mod_two_eq_one.mpr (Or.inr rfl)
+      omega
+    rw [bitLen_pos hne]; omega
   unfold Xf.runtime_Sov sov Go.bitsLen64
-  generalize bitLen (x ||| 1) = n at hb ⊢
+  generalize bitLen (x ||| 1) = n at hb hb1 ⊢
   revert n
   decide
 
